@@ -432,7 +432,11 @@ def ite(c, a, b):
             return ite(n, b, a)
     # True if c else False  is  bool(c);  False if c else True  is  not c
     if a == ('c', True) and b == ('c', False):
-        boolean = c[0] in ('cmp', 'not') or (c[0] in ('and', 'or') and all(x[0] in ('cmp', 'not') for x in c[1]))
+        def _b(x):
+            return x[0] in ('cmp', 'not') or (x[0] == 'call' and x[1] in (('g', 'all'), ('g', 'any'), ('g', 'isinstance'), ('g', 'bool'),
+                                                                         ('g', 'callable'), ('g', 'hasattr'), ('g', 'issubclass'))) \
+                or (x[0] == 'call' and x[1][0] == 'attr' and x[1][2] in ('startswith', 'endswith', 'isdigit', 'exists'))
+        boolean = _b(c) or (c[0] in ('and', 'or') and all(_b(x) for x in c[1]))
         return c if boolean else ('call', ('g', 'bool'), (c,), ())
     if a == ('c', False) and b == ('c', True):
         return not_(c)
